@@ -75,8 +75,9 @@ def get_const_info(const_index, const_list):
 
     if isinstance(arg_val, str):
         arg_repr = prefer_double_quote(repr(arg_val))
-    elif isinstance(arg_val, (set, frozenset)):
-        # Host-independent order for sets
+    elif isinstance(arg_val, (set, frozenset, int)):
+        # Host-independent order for sets; huge ints that Python 3.11+
+        # refuses to convert to decimal.
         arg_repr = better_repr(arg_val)
     else:
         arg_repr = repr(arg_val)
